@@ -15,6 +15,7 @@ Tree grammar (a *body* is a Python list of nodes):
   FL   ::= {"buffered": bool, "filters": [ids], "cached": bool, "deco": bool}
   E    ::= ["lit", s] | ["var", v] | ["cat", E, E] | ["call", def id, [E…]] | ["caller", id (0 = body), [E…]]
          | ["capture", def id, [E…]] | ["boom"] | ["filt", i, E] | ["loopindex"] | ["probe"]
+         | ["cprobe", kind, n, with caller?]      (source text only: instrumentation of the C05 oracle)
 
 Names: variables are `v<n>`, defs `d<n>`, named blocks `b<n>` (ids are unique over the whole template set,
 so that dynamic and lexical scoping coincide - see Target/Model.lean), filters `flt<i>` of harness/tmpl_rt.py.
@@ -64,7 +65,14 @@ class _Src:
             self.emit("\\\n")
 
 
+SRC_HOOK = None    # optional surface-style hook (harness/c05_surface.py): .ex(e) -> str | None, .node(s, n) -> bool
+
+
 def ex_src(e):
+    if SRC_HOOK is not None:
+        r = SRC_HOOK.ex(e)
+        if r is not None:
+            return r
     k = e[0]
     if k == "lit":
         assert all(c in LIT_ALPHABET for c in e[1]), e
@@ -87,6 +95,9 @@ def ex_src(e):
         return "str(loop.index)"
     if k == "probe":
         return "probe(context)"
+    if k == "cprobe":
+        # instrumentation of the C05 oracle (harness/c05_rt.py): returns '', is not an evaluation point
+        return "cprobe(context, %r, %d%s)" % (e[1], e[2], ", caller" if len(e) > 3 and e[3] else "")
     raise ValueError(e)
 
 
@@ -113,6 +124,8 @@ def _body_src(s, body):
 
 
 def _node_src(s, n):
+    if SRC_HOOK is not None and SRC_HOOK.node(s, n):
+        return
     k = n[0]
     if k == "text":
         s.emit(n[1])
